@@ -4,25 +4,8 @@
 (* Pixels are <<r, g, b, a>> with components in 0..255.                       *)
 EXTENDS AseTypes, AseFloat
 
-\* pixman MUL_UN8 / DIV_UN8; t may be negative in Blend8: >> is arithmetic = floor
-MulUn8(a, b) == LET t == a * b + 128 IN ((t \div 256) + t) \div 256
-DivUn8(a, b) == (a * 255 + (b \div 2)) \div b
-Blend8(back, src, op) == back + MulUn8(src - back, op)
-
-Normal(B, S, op) ==
-  IF B[4] = 0 THEN <<S[1], S[2], S[3], MulUn8(S[4], op)>>
-  ELSE IF S[4] = 0 THEN B
-  ELSE LET sa == MulUn8(S[4], op)
-           ra == sa + B[4] - MulUn8(B[4], sa)
-       IN <<B[1] + TDiv((S[1]-B[1])*sa, ra), B[2] + TDiv((S[2]-B[2])*sa, ra),
-            B[3] + TDiv((S[3]-B[3])*sa, ra), ra>>
-
-Merge(B, S, op) ==
-  LET ra == Blend8(B[4], S[4], op)
-      rgb == IF B[4] = 0 THEN <<S[1], S[2], S[3]>>
-             ELSE IF S[4] = 0 THEN <<B[1], B[2], B[3]>>
-             ELSE <<Blend8(B[1], S[1], op), Blend8(B[2], S[2], op), Blend8(B[3], S[3], op)>>
-  IN IF ra = 0 THEN <<0,0,0,0>> ELSE <<rgb[1], rgb[2], rgb[3], ra>>
+\* MulUn8, DivUn8, Blend8, Normal, Merge, BlendWith and the alpha skeleton live in AseArith.tla, where TLAPS proves
+\* the laws of C17 about them for every input (spec/tlaps/AseArithProofs.tla).
 
 ChMultiply(b, s) == MulUn8(b, s)
 ChScreen(b, s) == b + s - MulUn8(b, s)
@@ -55,31 +38,12 @@ BlendSrc(m, B, S) ==
 
 Blend(m, B, S, op) ==
   IF m = 0 \/ B[4] = 0 THEN Normal(B, S, op)
-  ELSE LET norm == Normal(B, S, op)
-           bl == Normal(B, BlendSrc(m, B, S), op)
-           n2b == Merge(norm, bl, B[4])
-           comp == MulUn8(B[4], MulUn8(S[4], op))
-       IN Merge(n2b, bl, comp)
+  ELSE BlendWith(B, S, BlendSrc(m, B, S), op)
 
 \* opacity a cel is composited with
 CelOpacity(layerOp, celOp) == MulUn8(layerOp, celOp)
 
 -----------------------------------------------------------------------------
-\* Colour-free alpha skeleton: the alpha channel of Blend as a function of the
-\* alphas alone (used to discharge the alpha law of C17 over all 2^24 triples).
-NormalAlpha(Ba, Sa, op) ==
-  IF Ba = 0 THEN MulUn8(Sa, op)
-  ELSE IF Sa = 0 THEN Ba
-  ELSE LET sa == MulUn8(Sa, op) IN sa + Ba - MulUn8(Ba, sa)
-MergeAlpha(Ba, Sa, op) == Blend8(Ba, Sa, op)
-\* alpha of Blend(m, ..) for m # 0 and Ba # 0: both Normal() calls see the same alphas
-AlphaOf(nonNormal, Ba, Sa, op) ==
-  IF ~nonNormal \/ Ba = 0 THEN NormalAlpha(Ba, Sa, op)
-  ELSE LET na == NormalAlpha(Ba, Sa, op)
-           n2b == MergeAlpha(na, na, Ba)
-           comp == MulUn8(Ba, MulUn8(Sa, op))
-       IN MergeAlpha(n2b, na, comp)
-
 \* ---- the laws of C17, stated on the spec ----
 AlphaLaw(m, B, S, op) == Blend(m, B, S, op)[4] = Normal(B, S, op)[4]
 TransparentSourceLaw(m, B, S, op) ==
